@@ -7,9 +7,9 @@
 (*                      rsum = r1 + r2, so that (dist + rsum)^2 = D2                          *)
 (*   normal direction : p2 - p1 (un-normalised), from the first geom to the second           *)
 (*   owners (world = -1) and the mean elasticity.                                             *)
-EXTENDS RatAlg, TLC, Randomization
+EXTENDS RatAlg, TLC, Prng
 
-CONSTANTS NScenes
+CONSTANTS NScenes, SeedBase
 
 VARIABLES scene, out, phase
 vars == <<scene, out, phase>>
@@ -42,7 +42,14 @@ DecodeLink(g, i) ==
    quat  |-> IF i = 1 /\ \A k \in 1..((g[o + 5] % 2) + 1) : g[o + 6 + (k - 1) * 7 + 1] % 2 = 0
                THEN QuatTable[(g[o + 4] % 8) + 1] ELSE QuatTable[(g[o + 4] % 5) + 1],
    geoms |-> [k \in 1..((g[o + 5] % 2) + 1) |-> DecodeGeom(g, o, k)]]
-DecodeScene(g, n) == [links |-> [i \in 1..n |-> DecodeLink(g, i)], pelast |-> RNorm(g[n * GL + 1] % 10, 10)]
+\* the ground plane is a geom of the world body and may itself sit at a local pose (offset and tilt)
+PlanePoses == << [pos |-> RVZero, quat |-> RQId],
+                 [pos |-> <<RNorm(1, 10), RNorm(-1, 5), RNorm(3, 10)>>, quat |-> RQId],
+                 [pos |-> <<RZero, RZero, RNorm(-1, 5)>>, quat |-> <<RNorm(12, 13), RNorm(5, 13), RZero, RZero>>],
+                 [pos |-> <<RNorm(1, 5), RZero, RNorm(1, 10)>>, quat |-> H(1, 1, 1, 1)],
+                 [pos |-> RVZero, quat |-> RQId], [pos |-> RVZero, quat |-> RQId] >>
+DecodeScene(g, n) == [links |-> [i \in 1..n |-> DecodeLink(g, i)], pelast |-> RNorm(g[n * GL + 1] % 10, 10),
+                      plane |-> PlanePoses[(g[n * GL + 2] % 6) + 1]]
 
 \* ---- world geometry
 Centre(l, gm) == RVAdd(l.pos, RRot(gm.lpos, l.quat))
@@ -81,12 +88,14 @@ RECURSIVE GeomList(_, _)
 GeomList(sc, i) == IF i = 0 THEN <<>>
                    ELSE GeomList(sc, i - 1) \o [k \in 1..Len(sc.links[i].geoms) |-> <<i, sc.links[i].geoms[k]>>]
 
+PlaneNormal(sc) == RRot(Z, sc.plane.quat)
+Height(sc, p) == RVDot(PlaneNormal(sc), RVSub(p, sc.plane.pos))          \* signed height of a point above the plane
 PairPlane(sc, e) ==      \* plane (geom 1 of the pair) vs a sphere or capsule
   LET l == sc.links[e[1]] gm == e[2] IN
   IF gm.type = "S"
-    THEN << [kind |-> "plane-sphere", dist |-> RSub(Centre(l, gm)[3], gm.r)] >>
-    ELSE << [kind |-> "plane-capsule", dist |-> RSub(EndA(l, gm)[3], gm.r)],
-            [kind |-> "plane-capsule", dist |-> RSub(EndB(l, gm)[3], gm.r)] >>
+    THEN << [kind |-> "plane-sphere", dist |-> RSub(Height(sc, Centre(l, gm)), gm.r)] >>
+    ELSE << [kind |-> "plane-capsule", dist |-> RSub(Height(sc, EndA(l, gm)), gm.r)],
+            [kind |-> "plane-capsule", dist |-> RSub(Height(sc, EndB(l, gm)), gm.r)] >>
 
 PairCurved(sc, e1, e2) ==
   LET l1 == sc.links[e1[1]] g1 == e1[2] l2 == sc.links[e2[1]] g2 == e2[2]
@@ -99,7 +108,7 @@ PairCurved(sc, e1, e2) ==
 
 Init ==
   /\ phase = "init" /\ out = <<>>
-  /\ \E n \in 2..3 : \E g \in RandomSubset(NScenes, [1..(n * GL + 1) -> 0..11]) : scene = DecodeScene(g, n)
+  /\ \E n \in 2..3 : \E k \in 1..NScenes : scene = DecodeScene(Gen(SeedBase + 3 * k + n, n * GL + 2), n)
 
 Compute ==
   /\ phase = "init" /\ phase' = "done"
@@ -108,6 +117,7 @@ Compute ==
      IN  out' = [ngeom |-> ng,
                  owner |-> [k \in 1..ng |-> gl[k][1] - 1],                       \* link index, 0-based
                  elast |-> [k \in 1..ng |-> gl[k][2].elast],
+                 pnormal |-> PlaneNormal(scene),
                  plane |-> [k \in 1..ng |-> PairPlane(scene, gl[k])],
                  \* curved pairs for geoms on different links, both orders (the implementation picks one)
                  pair  |-> [a \in 1..ng |-> [b \in 1..ng |->
